@@ -10,13 +10,20 @@
 //! The reader object is a byte slice (`&[u8]`), as in the crate's own tests.
 use std::io::{BufRead, Write};
 
-use poulpy_bin_fhe::blind_rotation::{BlindRotationKey, BlindRotationKeyCompressed, BlindRotationKeyLayout, CGGI};
+use poulpy_bin_fhe::{
+    bdd_arithmetic::{BDDKey, BDDKeyLayout},
+    blind_rotation::{BlindRotationKey, BlindRotationKeyCompressed, BlindRotationKeyLayout, CGGI},
+    circuit_bootstrapping::{CircuitBootstrappingKey, CircuitBootstrappingKeyLayout},
+};
 use poulpy_core::{
     Distribution, GetDistribution, GetDistributionMut,
     layouts::{
-        Base2K, Degree, Dnum, Dsize, GGLWE, GGLWEToGGSWKey, GGSW, GLWE, GLWEAutomorphismKey, GLWEPublicKey, GLWESwitchingKey,
-        GLWETensorKey, GLWEToLWEKey, LWE, LWESwitchingKey, LWEToGLWEKey, Rank, TorusPrecision,
+        Base2K, Degree, Dnum, Dsize, GGLWE, GGLWEInfos, GGLWEToGGSWKey, GGLWEToGGSWKeyLayout, GGSW, GGSWInfos, GLWE,
+        GLWEAutomorphismKey, GLWEAutomorphismKeyLayout, GLWEInfos, GLWEPublicKey, GLWESwitchingKey, GLWESwitchingKeyDegrees,
+        GLWESwitchingKeyDegreesMut, GLWESwitchingKeyLayout, GLWETensorKey, GLWEToLWEKey, GLWEToLWEKeyLayout, GetGaloisElement, LWE,
+        LWEInfos, LWESwitchingKey, LWEToGLWEKey, Rank, SetGaloisElement, SetLWEInfos, TorusPrecision,
         compressed::{
+            GGLWECompressedSeed, GGLWECompressedSeedMut, GGSWCompressedSeedMut, GLWECompressedSeedMut,
             GGLWECompressed, GGLWEToGGSWKeyCompressed, GGSWCompressed, GLWEAutomorphismKeyCompressed, GLWECompressed,
             GLWESwitchingKeyCompressed, GLWETensorKeyCompressed, GLWEToLWESwitchingKeyCompressed, LWECompressed,
             LWESwitchingKeyCompressed, LWEToGLWEKeyCompressed,
@@ -24,7 +31,7 @@ use poulpy_core::{
     },
 };
 use poulpy_hal::{
-    layouts::{FillUniform, MatZnx, ReaderFrom, ScalarZnx, VecZnx, WriterTo, ZnxInfos},
+    layouts::{FillUniform, MatZnx, ReaderFrom, ScalarZnx, VecZnx, WriterTo, ZnxInfos, ZnxView},
     source::Source,
 };
 
@@ -240,6 +247,146 @@ fn run_case(op: &str, ty: &str, p: &[u64], seed: u64, input: &[u8]) -> String {
         }
         "blind_rotation_key" if need(6) => go!(BlindRotationKey::<Vec<u8>, CGGI>::alloc(&brk_layout(p))),
         "blind_rotation_key_compressed" if need(6) => go!(BlindRotationKeyCompressed::<Vec<u8>, CGGI>::alloc(&brk_layout(p))),
+        "circuit_bootstrapping_key" if need(8) => {
+            let mut t = CircuitBootstrappingKey::<Vec<u8>, CGGI>::alloc_from_infos(&cbt_layout(p));
+            finish(&mut t, op, input, |_| String::new())
+        }
+        "bdd_key" if need(9) => {
+            let mut t = BDDKey::<Vec<u8>, CGGI>::alloc_from_infos(&bdd_layout(p));
+            finish(&mut t, op, input, |_| String::new())
+        }
+        _ => "bad-type".into(),
+    }
+}
+
+/// p = n_glwe, n_lwe, base2k, k, dnum, rank, dsize, k_atk   (one radix; atk/tsk use k_atk)
+fn cbt_layout(p: &[u64]) -> CircuitBootstrappingKeyLayout {
+    CircuitBootstrappingKeyLayout {
+        brk_layout: brk_layout(p),
+        atk_layout: GLWEAutomorphismKeyLayout { n: d(p[0]), base2k: b(p[2]), k: k(p[7]), rank: r(p[5]), dnum: dn(p[4]), dsize: ds(p[6]) },
+        tsk_layout: GGLWEToGGSWKeyLayout { n: d(p[0]), base2k: b(p[2]), k: k(p[7]), rank: r(p[5]), dnum: dn(p[4]), dsize: ds(p[6]) },
+    }
+}
+
+/// p = cbt params (8) + has_ks_glwe (0/1)
+fn bdd_layout(p: &[u64]) -> BDDKeyLayout {
+    BDDKeyLayout {
+        cbt_layout: cbt_layout(p),
+        ks_glwe_layout: if p[8] != 0 {
+            Some(GLWESwitchingKeyLayout { n: d(p[0]), base2k: b(p[2]), k: k(p[7]), rank_in: r(p[5]), rank_out: r(1), dnum: dn(p[4]), dsize: ds(p[6]) })
+        } else {
+            None
+        },
+        ks_lwe_layout: GLWEToLWEKeyLayout { n: d(p[0]), base2k: b(p[2]), k: k(p[7]), rank_in: r(if p[8] != 0 { 1 } else { p[5] }), dnum: dn(p[4]) },
+    }
+}
+
+// ---------------------------------------------------------------------------------------------
+// implementation-level round trip: build with known field values, write, read into a same-shaped
+// receiver, compare object `==` and every field the public API exposes.
+
+fn rt<T: ReaderFrom + WriterTo>(mk: impl Fn() -> T, set: impl Fn(&mut T), eq: impl Fn(&T, &T) -> bool, show: impl Fn(&T) -> String) -> String {
+    let mut a = mk();
+    set(&mut a);
+    let mut w: Vec<u8> = Vec::new();
+    if let Err(e) = a.write_to(&mut w) {
+        return format!("werr:{}", kind(&e));
+    }
+    let mut bb = mk();
+    let o = do_read(&mut bb, &w);
+    let w2 = rewrite(&bb);
+    format!("{o} eq={} same_bytes={} fa={} fb={} W={}", eq(&a, &bb) as u8, (w2 == hex(&w)) as u8, show(&a), show(&bb), hex(&w))
+}
+
+fn seedpat(v: u64, i: usize) -> [u8; 32] {
+    let mut sd = [0u8; 32];
+    for (j, x) in sd.iter_mut().enumerate() {
+        *x = (v as usize).wrapping_mul(31).wrapping_add(i * 7 + j * 13 + 1) as u8;
+    }
+    sd
+}
+
+fn lw<T: LWEInfos>(t: &T) -> String {
+    format!("n:{},base2k:{},size:{}", t.n().0, t.base2k().0, t.size())
+}
+fn gg<T: GGLWEInfos>(t: &T) -> String {
+    format!("{},rank_in:{},rank_out:{},dnum:{},dsize:{}", lw(t), t.rank_in().0, t.rank_out().0, t.dnum().0, t.dsize().0)
+}
+
+fn rt_case(ty: &str, p: &[u64], v: &[u64], seed: u64) -> String {
+    let need = |n: usize| p.len() >= n;
+    let v0 = v.first().copied().unwrap_or(0);
+    let v1 = v.get(1).copied().unwrap_or(0);
+    macro_rules! plain {
+        ($mk:expr, $show:expr) => {{ rt(|| { let mut t = $mk; fill(&mut t, seed); t }, |_| {}, |a, b| a == b, $show) }};
+    }
+    macro_rules! degs {
+        ($mk:expr) => {{
+            rt(
+                || { let mut t = $mk; fill(&mut t, seed); t },
+                |t| { *GLWESwitchingKeyDegreesMut::input_degree(t) = Degree(v0 as u32); *GLWESwitchingKeyDegreesMut::output_degree(t) = Degree(v1 as u32); },
+                |a, b| a == b,
+                |t| format!("{},in:{},out:{}", gg(t), GLWESwitchingKeyDegrees::input_degree(t).0, GLWESwitchingKeyDegrees::output_degree(t).0),
+            )
+        }};
+    }
+    match ty {
+        "vec" if need(4) => rt(|| { let mut t = VecZnx::alloc(p[0] as usize, p[1] as usize, p[3] as usize); fill(&mut t, seed); t.set_size(p[2] as usize); t }, |_| {},
+            |a, b| a.n == b.n && a.cols == b.cols && a.size == b.size && a.max_size == b.max_size && a.raw() == b.raw(),
+            |t| format!("n:{},cols:{},size:{},max:{}", t.n, t.cols, t.size, t.max_size)),
+        "scalar" if need(2) => plain!(ScalarZnx::alloc(p[0] as usize, p[1] as usize), |t| format!("n:{},cols:{}", t.n, t.cols)),
+        "mat" if need(5) => plain!(MatZnx::alloc(p[0] as usize, p[1] as usize, p[2] as usize, p[3] as usize, p[4] as usize),
+            |t| format!("n:{},size:{},rows:{},cols_in:{},cols_out:{}", t.n(), t.size(), t.rows(), t.cols_in(), t.cols_out())),
+        "glwe" if need(4) => rt(|| { let mut t = GLWE::alloc(d(p[0]), b(p[1]), k(p[2]), r(p[3])); fill(&mut t, seed); t }, |t| t.set_base2k(Base2K(v0 as u32)), |a, b| a == b,
+            |t| format!("{},rank:{}", lw(t), t.rank().0)),
+        "lwe" if need(3) => rt(|| { let mut t = LWE::alloc(d(p[0]), b(p[1]), k(p[2])); fill(&mut t, seed); t }, |t| t.set_base2k(Base2K(v0 as u32)), |a, b| a == b, |t| lw(t)),
+        "gglwe" if need(7) => plain!(GGLWE::alloc(d(p[0]), b(p[1]), k(p[2]), r(p[3]), r(p[4]), dn(p[5]), ds(p[6])), |t| gg(t)),
+        "ggsw" if need(6) => plain!(GGSW::alloc(d(p[0]), b(p[1]), k(p[2]), r(p[3]), dn(p[4]), ds(p[5])),
+            |t| format!("{},rank:{},dnum:{},dsize:{}", lw(t), t.rank().0, GGSWInfos::dnum(t).0, GGSWInfos::dsize(t).0)),
+        "glwe_tensor_key" if need(6) => plain!(GLWETensorKey::alloc(d(p[0]), b(p[1]), k(p[2]), r(p[3]), dn(p[4]), ds(p[5])), |t| gg(t)),
+        "gglwe_to_ggsw_key" if need(6) => plain!(GGLWEToGGSWKey::alloc(d(p[0]), b(p[1]), k(p[2]), r(p[3]), dn(p[4]), ds(p[5])), |t| gg(t)),
+        "glwe_switching_key" if need(7) => degs!(GLWESwitchingKey::alloc(d(p[0]), b(p[1]), k(p[2]), r(p[3]), r(p[4]), dn(p[5]), ds(p[6]))),
+        "lwe_switching_key" if need(4) => degs!(LWESwitchingKey::alloc(d(p[0]), b(p[1]), k(p[2]), dn(p[3]))),
+        "lwe_to_glwe_key" if need(5) => degs!(LWEToGLWEKey::alloc(d(p[0]), b(p[1]), k(p[2]), r(p[3]), dn(p[4]))),
+        "glwe_to_lwe_key" if need(5) => degs!(GLWEToLWEKey::alloc(d(p[0]), b(p[1]), k(p[2]), r(p[3]), dn(p[4]))),
+        "glwe_switching_key_compressed" if need(7) => rt(
+            || { let mut t = GLWESwitchingKeyCompressed::alloc(d(p[0]), b(p[1]), k(p[2]), r(p[3]), r(p[4]), dn(p[5]), ds(p[6])); fill(&mut t, seed); t },
+            |t| { *GLWESwitchingKeyDegreesMut::input_degree(t) = Degree(v0 as u32); *GLWESwitchingKeyDegreesMut::output_degree(t) = Degree(v1 as u32);
+                  for (i, sd) in t.seed_mut().iter_mut().enumerate() { *sd = seedpat(v0 ^ v1, i); } },
+            |a, b| a == b,
+            |t| format!("{},in:{},out:{}", gg(t), GLWESwitchingKeyDegrees::input_degree(t).0, GLWESwitchingKeyDegrees::output_degree(t).0)),
+        "glwe_automorphism_key" if need(6) => rt(
+            || { let mut t = GLWEAutomorphismKey::alloc(d(p[0]), b(p[1]), k(p[2]), r(p[3]), dn(p[4]), ds(p[5])); fill(&mut t, seed); t },
+            |t| t.set_p(v0 as i64), |a, b| a == b, |t| format!("{},p:{}", gg(t), t.p())),
+        "glwe_automorphism_key_compressed" if need(6) => rt(
+            || { let mut t = GLWEAutomorphismKeyCompressed::alloc(d(p[0]), b(p[1]), k(p[2]), r(p[3]), dn(p[4]), ds(p[5])); fill(&mut t, seed); t },
+            |t| { t.set_p(v0 as i64); for (i, sd) in t.seed_mut().iter_mut().enumerate() { *sd = seedpat(v1, i); } },
+            |a, b| a == b, |t| format!("{},p:{}", gg(t), t.p())),
+        "glwe_public_key" if need(4) => rt(|| GLWEPublicKey::alloc(d(p[0]), b(p[1]), k(p[2]), r(p[3])), |t| *t.dist_mut() = dist_of(v0, v1), |a, b| a == b,
+            |t| format!("{},rank:{},dist:{}", lw(t), t.rank().0, dist_show(t.dist()))),
+        "glwe_compressed" if need(4) => rt(|| { let mut t = GLWECompressed::alloc(d(p[0]), b(p[1]), k(p[2]), r(p[3])); fill(&mut t, seed); t },
+            |t| *t.seed_mut() = seedpat(v0, 0), |a, b| a == b, |t| format!("{},rank:{}", lw(t), t.rank().0)),
+        "lwe_compressed" if need(2) => plain!(LWECompressed::alloc(b(p[0]), k(p[1])), |t| lw(t)),
+        "gglwe_compressed" if need(7) => rt(
+            || { let mut t = GGLWECompressed::alloc(d(p[0]), b(p[1]), k(p[2]), r(p[3]), r(p[4]), dn(p[5]), ds(p[6])); fill(&mut t, seed); t },
+            |t| for (i, sd) in t.seed_mut().iter_mut().enumerate() { *sd = seedpat(v0, i); }, |a, b| a == b,
+            |t| format!("{},seeds:{}", gg(t), t.seed().len())),
+        "ggsw_compressed" if need(6) => rt(
+            || { let mut t = GGSWCompressed::alloc(d(p[0]), b(p[1]), k(p[2]), r(p[3]), dn(p[4]), ds(p[5])); fill(&mut t, seed); t },
+            |t| for (i, sd) in t.seed_mut().iter_mut().enumerate() { *sd = seedpat(v0, i); }, |a, b| a == b, |t| lw(t)),
+        "glwe_tensor_key_compressed" if need(6) => rt(
+            || { let mut t = GLWETensorKeyCompressed::alloc(d(p[0]), b(p[1]), k(p[2]), r(p[3]), dn(p[4]), ds(p[5])); fill(&mut t, seed); t },
+            |t| for (i, sd) in t.seed_mut().iter_mut().enumerate() { *sd = seedpat(v0, i); }, |a, b| a == b, |t| gg(t)),
+        "lwe_to_glwe_key_compressed" if need(5) => plain!(LWEToGLWEKeyCompressed::alloc(d(p[0]), b(p[1]), k(p[2]), r(p[3]), dn(p[4])), |t| gg(t)),
+        "lwe_switching_key_compressed" if need(4) => plain!(LWESwitchingKeyCompressed::alloc(d(p[0]), b(p[1]), k(p[2]), dn(p[3])), |t| gg(t)),
+        "glwe_to_lwe_key_compressed" if need(5) => plain!(GLWEToLWESwitchingKeyCompressed::alloc(d(p[0]), b(p[1]), k(p[2]), r(p[3]), dn(p[4])), |t| gg(t)),
+        "gglwe_to_ggsw_key_compressed" if need(6) => plain!(GGLWEToGGSWKeyCompressed::alloc(d(p[0]), b(p[1]), k(p[2]), r(p[3]), dn(p[4]), ds(p[5])), |t| gg(t)),
+        "blind_rotation_key" if need(6) => plain!(BlindRotationKey::<Vec<u8>, CGGI>::alloc(&brk_layout(p)), |t| lw(t)),
+        "blind_rotation_key_compressed" if need(6) => plain!(BlindRotationKeyCompressed::<Vec<u8>, CGGI>::alloc(&brk_layout(p)), |t| lw(t)),
+        // no PartialEq on these two: equality = the real writer's bytes of the object read back
+        "circuit_bootstrapping_key" if need(8) => rt(|| CircuitBootstrappingKey::<Vec<u8>, CGGI>::alloc_from_infos(&cbt_layout(p)), |_| {},
+            |a, b| rewrite(a) == rewrite(b), |_| "-".to_string()),
+        "bdd_key" if need(9) => rt(|| BDDKey::<Vec<u8>, CGGI>::alloc_from_infos(&bdd_layout(p)), |_| {}, |a, b| rewrite(a) == rewrite(b), |_| "-".to_string()),
         _ => "bad-type".into(),
     }
 }
@@ -304,6 +451,16 @@ pub fn run(_args: &[String]) {
                 let input = unhex(kv(&t, "in").unwrap_or("-"));
                 // allocation of the receiver itself can assert on inadmissible parameters
                 match std::panic::catch_unwind(std::panic::AssertUnwindSafe(|| run_case(op, ty, &p, seed, &input))) {
+                    Ok(s) => s,
+                    Err(p) => format!("alloc-panic:{}", panic_class(&p)),
+                }
+            }
+            "rt" => {
+                let ty = kv(&t, "type").unwrap_or("").to_string();
+                let p = nums(kv(&t, "p"));
+                let v = nums(kv(&t, "v"));
+                let seed = kv(&t, "fill").and_then(|x| x.parse().ok()).unwrap_or(1u64);
+                match std::panic::catch_unwind(std::panic::AssertUnwindSafe(|| rt_case(&ty, &p, &v, seed))) {
                     Ok(s) => s,
                     Err(p) => format!("alloc-panic:{}", panic_class(&p)),
                 }
